@@ -147,6 +147,16 @@ CLAIMS = {
              "imported implementer names leak into the application schema's abstract types (reported as KNOWN-FINDING; any "
              "other change of the schema or any outcome that depends on history is a VIOLATION).",
         technique="TLA+ loader spec (slot search, %import) model-checked on enumerated texts and replayed; TLC trace validation of recorded load sessions"),
+    "C13": dict(
+        text="Random sessions of up to 5 (quick) / 8 operations against one schema object - loads of valid texts, of texts with a "
+             "fault at each stage, with %import, with overrides, and mutation of everything reachable from returned "
+             "configurations - are recorded from the real code with the outcome and the schema digest after every operation and "
+             "validated by TLC against MC_ZSession (each outcome equals the specification's outcome of that load alone; the "
+             "digest never changes); every load is also repeated against a freshly loaded copy of the schema.",
+        design="3 (C13), 1.3 D9",
+        note="Trusted: TLC, digest of the real schema object, recording driver. Known finding D9 (implementer names of "
+             "%import-ed types leak into the application schema) is reported as KNOWN-FINDING; everything else is a VIOLATION.",
+        technique="TLC trace validation of recorded load/mutate sessions against the TLA+ session spec over the loader spec"),
 }
 
 NOT_YET = "check not built yet (construction order in DESIGN.md section 8)"
